@@ -1,6 +1,8 @@
 package prop
 
 import (
+	sdk "github.com/cosmos/cosmos-sdk/types"
+	"encoding/base64"
 	"crypto/sha256"
 	"encoding/hex"
 	"encoding/json"
@@ -207,7 +209,9 @@ func ReplicaMain(args []string) {
 		wa := time.Now().UnixNano()
 		obs.Blocks = append(obs.Blocks, observeBlock(r, br, wb, wa))
 		n++
-		if *mode == "restart" && *dbdir != "" && n%*every == 0 {
+		// restart points: every k-th block, and after every block that carried a parameter update (what a process
+		// remembers about the configuration is most likely to differ from the DB right there)
+		if *mode == "restart" && *dbdir != "" && (n%*every == 0 || blockUpdatesParams(r, e.Txs)) {
 			// a node restart between blocks: everything in memory is lost, the DB is closed and reopened
 			r.App.Close()
 			db.Close()
@@ -228,6 +232,29 @@ func ReplicaMain(args []string) {
 	}
 	r.App.Close()
 	db.Close()
+}
+
+// blockUpdatesParams reports whether one of the transactions carries a MsgUpdateParams, directly or as a routed message.
+func blockUpdatesParams(r *rig.Rig, txs [][]byte) bool {
+	for _, bz := range txs {
+		tx, err := r.TxConfig.TxDecoder()(bz)
+		if err != nil {
+			continue
+		}
+		for _, m := range tx.GetMsgs() {
+			if strings.HasSuffix(sdk.MsgTypeURL(m), "MsgUpdateParams") {
+				return true
+			}
+		}
+		if mt, ok := tx.(sdk.TxWithMemo); ok {
+			if i := strings.IndexByte(mt.GetMemo(), ':'); i > 0 {
+				if raw, err := base64.StdEncoding.DecodeString(mt.GetMemo()[i+1:]); err == nil && strings.Contains(string(raw), "MsgUpdateParams") {
+					return true
+				}
+			}
+		}
+	}
+	return false
 }
 
 func runReplica(env []string, args ...string) (*execObs, error) {
